@@ -38,6 +38,16 @@ fn text(rng: &mut Rng,len: usize) -> String {
 
 pub fn dispatch(toks: &[&str]) -> String {
     match toks[0] {
+        "pasenc" => {
+            // pasenc id hextext : the Pascal text encoder alone (TextConverter::from_utf8 with the CR terminator)
+            use a2kit::fs::TextConversion;
+            let txt = String::from_utf8_lossy(&unhex(if toks[2]=="-" {""} else {toks[2]})).to_string();
+            match a2kit::fs::pascal::types::TextConverter::new(vec![0x0d]).from_utf8(&txt) { Some(v) => format!("ok:{}",tohex(&v)), None => "none".to_string() }
+        },
+        "pasdec" => {
+            use a2kit::fs::TextConversion;
+            match a2kit::fs::pascal::types::TextConverter::new(vec![0x0d]).to_utf8(&unhex(if toks[2]=="-" {""} else {toks[2]})) { Some(v) => format!("ok:{}",tohex(v.as_bytes())), None => "none".to_string() }
+        },
         "deseq" => {
             // deseq id chunk_len hexdata -> chunk lengths, eof
             let mut f = new_fimg("prodos",num(toks[2])).unwrap();
